@@ -30,6 +30,8 @@ def child_index(st=None):
     generalisation, as contracts/C09_pile.py:arb_child); it is an input of the task (`g_child`) so that a known
     finding can speak about it."""
     st = st or cur()
+    if "g_child" not in st.ghost:
+        st.ghost["g_child"] = st.fresh_int("child")  # (a task without the ghost input: still an arbitrary index)
     return st.ghost["g_child"]
 
 
@@ -42,6 +44,7 @@ def _setup_child(st, self_obj, vals):
     V._current.append(st)
     try:
         n = n_items(self_obj)
+        vals["g_n_items"] = n
         # an arbitrary child that EXISTS (nothing else is ever assumed about it): in range whenever there is a child
         st.assume(implies(n > 0, both(0 <= j, j < n)))
         it = item_at(self_obj, j)
@@ -242,6 +245,16 @@ class pile_sizing:
         # FAILS-ON-TREE: C01-KF11 and wider: Pile([Text('a'), (2, SolidFill('x'))]) reports BOX on account of the given box item;
         # render((5, 4)) hands the weighted flow-only Text a box size: ValueError 'too many values to unpack (expected 1)'
         yield "box-only-if-every-item-can-be-drawn-in-a-box-pile", implies(both(hb, inr, ST(n) != 1, neg(pile_unsupported(old, j))), pile_item_ok_box(old, j))
+
+    def ensures_callee(old, s, a, result):
+        """At call sites: the documented rules only (never a clause that is marked FAILS-ON-TREE)."""
+        n = n_items(old)
+        hb, hf, hx = _has(result, BOX), _has(result, FLOW), _has(result, FIXED)
+        yield "empty-pile-is-box-flow", implies(n == 0, both(hb, hf, neg(hx)))
+        yield "unsupported-item-gives-the-fallback-box-flow", implies(both(n > 0, ST(n) == 1), both(hb, hf, neg(hx)))
+        yield "strict-box-item-gives-box-only", implies(both(n > 0, ST(n) == 2), both(hb, neg(hf), neg(hx)))
+        yield "as-documented", implies(both(n > 0, ST(n) == 0), both(eq(hb, SB(n)), eq(hf, SF(n)), eq(hx, SX(n))))
+        yield "state", both(ST(n) >= 0, ST(n) <= 2)
 
     loops = {0: Loop(invariant=_psz_loop)}
 
@@ -457,5 +470,18 @@ class columns_sizing:
         yield "flow-only-if-every-column-can-be-drawn-in-a-flow-columns", implies(both(hf, inr), col_ok_flow(old, j))
         yield "fixed-only-if-every-column-can-be-drawn-in-a-fixed-columns", implies(both(hx, inr), col_ok_fixed(old, j))
         yield "fixed-only-if-some-column-has-a-height-of-its-own", implies(both(hx, ok, neg(nothing)), CF("CHG", n))
+
+    def ensures_callee(old, s, a, result):
+        """At call sites: the documented rules only (never a clause that is marked FAILS-ON-TREE)."""
+        n = n_items(old)
+        hb, hf, hx = _has(result, BOX), _has(result, FLOW), _has(result, FIXED)
+        ok = neg(CF("CU", n))
+        strict = CF("CSB", n)
+        fixed = both(neg(strict), CF("CHX", n), neg(CF("CBF", n)))
+        flow = both(neg(strict), either(CF("CHF", n), fixed))
+        box = CF("CAB", n)
+        nothing = both(neg(box), neg(flow), neg(fixed))
+        yield "fallbacks", implies(either(n == 0, neg(ok), nothing), both(hb, hf, neg(hx)))
+        yield "as-documented", implies(both(n > 0, ok, neg(nothing)), both(eq(hb, box), eq(hf, flow), eq(hx, fixed)))
 
     loops = {0: Loop(invariant=_csz_loop)}
